@@ -229,29 +229,13 @@ func runSeq(rng *rand.Rand, sIdx int) {
 		return
 	}
 	advance(phase) // requests come at a random phase of the purge period
-	nSteps := 20 + rng.Intn(181)
-	for st := 0; st < nSteps && !blocked; st++ {
-		r.Count("steps", 1)
-		switch x := rng.Intn(10); {
-		case x < 6: // request
-			var cid uint32
-			kind := "known"
-			switch y := rng.Intn(12); {
-			case y == 0:
-				cid, kind = 77, "unknown-chain"
-			case y == 1:
-				cid, kind = uint32(ids[rng.Intn(len(ids))])+65536*uint32(1+rng.Intn(3)), "chain-id-above-65535"
-			default:
-				cid = uint32(ids[rng.Intn(len(ids))])
-			}
-			// transaction ids are opaque byte strings: the pool of a sequence holds ids of different lengths, ids that share
-			// their first 32 bytes, and ids that differ only by trailing zero bytes
-			tx := txPool[rng.Intn(nTx)]
+	// doRequest sends one request and judges where it went (the per-request oracle)
+	doRequest := func(cid uint32, tx string, kind string) bool {
 			req := &gossipv1.ObservationRequest{ChainId: cid, TxHash: []byte(tx)}
 			before := lens()
 			trace = append(trace, fmt.Sprintf("t=%s request(chain=%d,tx=%x)", now.Sub(base), cid, tx))
 			if !send(req, "request") || !sentinel() {
-				break
+				return false
 			}
 			after := lens()
 			r.Count("requests", 1)
@@ -322,6 +306,64 @@ func runSeq(rng *rand.Rand, sIdx int) {
 				if fw {
 					lastFwd[k] = now
 				}
+			}
+			return true
+	}
+	nSteps := 20 + rng.Intn(181)
+	floodAt := -1
+	if sIdx%25 == 7 && len(ids) > 0 { // one sequence in 25 contains a flood: more than a thousand other transactions are forwarded inside one window
+		floodAt = rng.Intn(nSteps)
+	}
+	for st := 0; st < nSteps && !blocked; st++ {
+		r.Count("steps", 1)
+		if st == floodAt {
+			c := ids[rng.Intn(len(ids))]
+			if cap(chains[c]) > 0 {
+				first := fmt.Sprintf("flood-%d-first", sIdx)
+				ok := doRequest(uint32(c), first, "known")
+				nFlood := 1100 + rng.Intn(200)
+				for i := 0; i < nFlood && ok && !blocked; i++ {
+					// make room, then one more distinct transaction
+					select {
+					case got := <-chains[c]:
+						if len(model[c]) > 0 && model[c][0] == got {
+							model[c] = model[c][1:]
+						}
+					default:
+					}
+					ok = doRequest(uint32(c), fmt.Sprintf("flood-%d-%d", sIdx, i), "known")
+				}
+				if ok && !blocked {
+					trace = append(trace, fmt.Sprintf("flood: %d distinct transactions forwarded on chain %d within the window; the first one is requested again", nFlood, c))
+					select {
+					case got := <-chains[c]:
+						if len(model[c]) > 0 && model[c][0] == got {
+							model[c] = model[c][1:]
+						}
+					default:
+					}
+					doRequest(uint32(c), first, "known")
+					r.Count("floods", 1)
+				}
+			}
+		}
+		switch x := rng.Intn(10); {
+		case x < 6: // request
+			var cid uint32
+			kind := "known"
+			switch y := rng.Intn(12); {
+			case y == 0:
+				cid, kind = 77, "unknown-chain"
+			case y == 1:
+				cid, kind = uint32(ids[rng.Intn(len(ids))])+65536*uint32(1+rng.Intn(3)), "chain-id-above-65535"
+			default:
+				cid = uint32(ids[rng.Intn(len(ids))])
+			}
+			// transaction ids are opaque byte strings: the pool of a sequence holds ids of different lengths, ids that share
+			// their first 32 bytes, and ids that differ only by trailing zero bytes
+			tx := txPool[rng.Intn(nTx)]
+			if !doRequest(cid, tx, kind) {
+				break
 			}
 		case x < 8: // advance the clock, delivering the purge ticks that fall due
 			d := []time.Duration{time.Second, 30 * time.Second, 3 * time.Minute, 6 * time.Minute, 7 * time.Minute, 10*time.Minute + 59*time.Second, 11*time.Minute + time.Second, 12 * time.Minute, 18*time.Minute + time.Second, 25 * time.Minute}[rng.Intn(10)]
